@@ -6,6 +6,7 @@ import PgVerif.Basic.Canon
 import PgVerif.Spec.Control
 import PgVerif.Spec.Sequence
 import PgVerif.Spec.Relmap
+import PgVerif.Spec.Crc
 namespace PgVerif.Gen
 open PgVerif PgVerif.Spec
 
@@ -206,7 +207,8 @@ def boundarySeqPages : List SeqPage :=
 
 def knownOids : List Nat := [1213, 1247, 1249, 1255, 1259, 1260, 1261, 1262, 2396, 2847, 2964, 3592, 3602, 6000, 6100]
 
-def genRelMapN (n : Nat) : Gen RelMap := do
+/-- a map with `n` mappings in a layout with `mx` slots and `padLen` padding bytes -/
+def genRelMapIn (mx padLen n : Nat) : Gen RelMap := do
   let pool ← Gen.listOf 4 (genU 32)
   let ms ← Gen.listOf n (do
     let oid ← (do match ← Gen.below 4 with
@@ -219,8 +221,14 @@ def genRelMapN (n : Nat) : Gen RelMap := do
       | 1 => Gen.oneOf pool
       | _ => genU 32)
     pure (oid, fn))
-  let unused ← (do if ← Gen.prob 2 3 then pure (zeros (8 * (62 - n))) else Gen.bytes (8 * (62 - n)))
-  return { mappings := ms, unused, crc := ← genU 32, pad := ← (do if ← Gen.prob 2 3 then pure (zeros 4) else Gen.bytes 4) }
+  let unused ← (do if ← Gen.prob 2 3 then pure (zeros (8 * (mx - n))) else Gen.bytes (8 * (mx - n)))
+  return { mappings := ms, unused, crc := ← genU 32, pad := ← (do if ← Gen.prob 2 3 then pure (zeros padLen) else Gen.bytes padLen) }
+
+/-- PostgreSQL 12–15 layout (62 slots, 4 bytes of padding) -/
+def genRelMapN (n : Nat) : Gen RelMap := genRelMapIn 62 4 n
+
+/-- PostgreSQL 16 layout (64 slots, no padding) -/
+def genRelMap16N (n : Nat) : Gen RelMap := genRelMapIn 64 0 n
 
 def genRelMap : Gen RelMap := do
   let n ← (do match ← Gen.below 5 with
@@ -228,5 +236,16 @@ def genRelMap : Gen RelMap := do
     | 1 => Gen.range 15 50
     | _ => Gen.range 0 62)
   genRelMapN n
+
+def genRelMap16 : Gen RelMap := do
+  let n ← (do match ← Gen.below 5 with
+    | 0 => Gen.oneOf [0, 1, 62, 63, 64]
+    | 1 => Gen.range 15 50
+    | _ => Gen.range 0 64)
+  genRelMap16N n
+
+/-- the same map with the crc PostgreSQL would store: the CRC-32C of the bytes before it -/
+def withTrueCrc (m : RelMap) : RelMap :=
+  { m with crc := crc32c ((encRelMap m).take (8 + (m.mappings.flatMap encMapping).length + m.unused.length)) }
 
 end PgVerif.Gen
